@@ -10,6 +10,7 @@ From Coq Require Import ZArith List Lia.
 From SK Require Import Lib.Base Model.Capa Proofs.CapaSpec Proofs.CapaDP Proofs.Penalise Check.CapaCheck.
 Open Scope Z_scope.
 
+From SK Require Import Proofs.ValidCuts.
 Definition capa_code Sc Sp ac bc ap bp m M n := capa Sc Sp ac bc ap bp m M (m - 1) n.
 
 Section C03.
@@ -139,3 +140,9 @@ Print Assumptions C03_G_is_upper_bound.
 Print Assumptions C03_G_is_attained.
 Print Assumptions C03_immediate_pruning_refuted.
 Print Assumptions C03_checker_sound.
+
+(** ---- added: statements re-derived from the lemma files by tools/append_props.py ---- *)
+Theorem C03_only_valid_cuts_matter : forall (Sc1 Sc2 : nat -> nat -> list Z) (Sp1 Sp2 : nat -> list Z) (ac : Z) (bc : list Z) (ap : Z) (bp : list Z) (m M delay n : nat), (1 <= m)%nat -> (m <= M)%nat -> (forall s e : nat, (s + m <= e)%nat -> (e <= s + M)%nat -> (e <= n)%nat -> Sc1 s e = Sc2 s e) -> (forall t : nat, (t < n)%nat -> Sp1 t = Sp2 t) -> capa Sc1 Sp1 ac bc ap bp m M delay n = capa Sc2 Sp2 ac bc ap bp m M delay n.
+Proof. exact @capa_ext_valid_maxlen. Qed.
+
+Print Assumptions C03_only_valid_cuts_matter.
